@@ -49,22 +49,19 @@ Proof. exact toposort_cycle_diverges. Qed.
 
 (* (b) bit names: str(int) / int(str) are inverse and the reader's splitting undoes the writer's
    "<ident>_<i>_" / "<name>[<i>]" for every i : N, every identifier (also "&" / "&_...": repaired
-   K4), every name that does not start with a backslash *)
+   K4), every name (also names starting with a backslash: repaired K9) *)
 Theorem C03_dec_inverse : forall n : N, int_of (dec n) = n.
 Proof. exact int_of_dec. Qed.
 Print Assumptions C03_dec_inverse.
 
 Theorem C03_bitname_inverse : forall (ident name : str) (i : N),
-  (match name with c :: _ => c <> c_bsl | [] => True end) ->
   net_bit (bit_ident ident i) (bit_name name i) = Some (Some i, name, ident).
 Proof. exact bitname_inverse. Qed.
 Print Assumptions C03_bitname_inverse.
 
 (* the exact side conditions of the code (complete characterisations) *)
 Theorem C03_bitname_bracket_exact : forall (name : str) (i : N),
-  sep_bracket (bit_name name i) =
-  if negb (N.eqb (hd c_lbr name) c_bsl) || Nat.eqb (length (split_on c_space name)) 2
-  then Some (Some i, name) else Some (None, bit_name name i).
+  sep_bracket (bit_name name i) = Some (Some i, name).
 Proof. exact bitname_bracket_full. Qed.
 Print Assumptions C03_bitname_bracket_exact.
 
@@ -130,7 +127,7 @@ Proof. exact lex_print_needs_no_quote. Qed.
 (* (b)+(c) composed: ONE CABLE through the writer and back through the reader, the nets in any
    file order *)
 Theorem C03_cable_roundtrip : forall P ident name (c : cab P) nets,
-  name_ok name -> c_wires c <> [] -> is_bus c ->
+  c_wires c <> [] -> is_bus c ->
   Permutation nets (emit_cable ident name c) ->
   read_cable nets = Some (name, ident, mkcab (c_lower c) true (c_wires c)).
 Proof. exact bus_roundtrip_any_order. Qed.
@@ -150,8 +147,8 @@ Proof. exact bus_roundtrip_example. Qed.
    reader's net loop (lookup by name, then by identifier, merge or add, ValueError fallback): same
    cables, same order, names, identifiers, lower indices and per-bit pins; buses flagged as arrays.
    [wf_cell]: names pairwise different, identifiers pairwise different case-insensitively, every
-   bus has an identifier that is not "&"/"&_..." and a name not starting with a backslash, every
-   scalar net has lower 0 and is not named like a bit. (Names with * or ? are outside the model.) *)
+   bus has at least one wire (any identifier, any name: K4 and K9 repaired), every
+   scalar net has lower 0 and is not named like a bit. (Names with * or ? are ordinary names: K7.) *)
 Theorem C03_cell_nets_roundtrip : forall P (cabs : list (entry P)), wf_cell cabs ->
   read_nets [] (emit_nets cabs) = Some (map norm_entry cabs).
 Proof. exact cell_nets_roundtrip. Qed.
